@@ -17,6 +17,7 @@ CLAIMED = {
  "C12": ("Frame contract `assigns nothing` for every function of geometer/ (except the documented mutators): one obligation per in-place write site (165), discharged by a per-function ownership analysis (object/buffer freshness) that is sound for every call history; canaries and a differential test of the numpy view/copy table run on every check; a native purity monitor (5960 operations on a shared object pool, byte-exact snapshots) is the replay harness.", "4.12"),
  "C16": ("SegmentTensor.contains <=> 0 <= t <= 1 for every real segment and query point (2D and 3D, arbitrary homogeneous representatives, rays with an end point at infinity), off-line points rejected, Triangle.contains <=> all barycentric coordinates >= 0 for all real vertices/points/representatives: proved by z3 on the path conditions of the real code. The generic polygon algorithm is only in the thorough tier (3-gon) - see DESIGN.", "4.16"),
  "C03": ("Projective equality (real __eq__ on the real is_multiple body): x == k*x, reflexive, symmetric, equal <=> all 2x2 minors vanish; relational two-run contracts f(k*x) ~ f(x) for join, meet, contains, is_collinear, quadric membership in every argument position; plus the representative-free specifications of C01/C11/C16/C20 cases that are stated for arbitrary homogeneous representatives (cross ratio in pencil parameters, segment/triangle membership with symbolic scale factors). PolygonTensor.contains only by a bounded stand-in.", "4.3"),
+ "C09": ("2D: dist(point, point)^2 equals the squared Cartesian distance for arbitrary homogeneous representatives, dist >= 0, symmetric, zero <=> same point, infinite for exactly one point at infinity; dist(line, point) and dist(point, line) through the real project/perpendicular/mirror/join/meet chain equal |l.p|/(|n| |pz|), zero <=> incident; angle of three points: the value fed to the logarithm satisfies the Laguerre identity w*z == conj(z), antisymmetry (all by z3/normal form for all real inputs). 3D distances (SVD/QR leaves) only by a bounded lattice stand-in; plane-point 3D symbolic in the thorough tier.", "4.9"),
 }
 NA = {}
 def main():
